@@ -46,12 +46,22 @@ type FuncContract struct {
 	Loops    map[int]*LoopSpec
 	Ghosts   []QVar // ghost parameters: arbitrary but fixed values the clauses may mention
 	Insts    map[string][]Expr // "callee.ghost" -> explicit instantiations at call sites in this function
+	OnReturn []*GhostSet       // ghost updates that take effect when the function returns
 	Trusted  bool // contract assumed, body not verified
 	MayPanic bool
 	Extern   bool
 	Key      string // extern key, e.g. "(*sync.Mutex).Lock" or "time.Now"
 	File     string
 	Line     int
+}
+
+// GhostSet: `onreturn [cond ==>] g := expr`. Ghost state is specification-only: the update is part
+// of the function's meaning for its callers (nothing to prove in the body).
+type GhostSet struct {
+	Cond Expr
+	Var  string
+	Val  Expr
+	Src  string
 }
 
 type Pred struct {
@@ -104,7 +114,7 @@ var topKeywords = map[string]bool{"func": true, "extern": true, "pred": true, "g
 	"lemma": true, "axiom": true, "benign": true, "fn": true, "immutable": true}
 var clauseKeywords = map[string]bool{"props": true, "arith": true, "requires": true, "ensures": true,
 	"modifies": true, "loop": true, "invariant": true, "decreases": true, "unroll": true, "trusted": true,
-	"maypanic": true, "guarantee": true, "guards": true, "ghostparam": true, "inst": true}
+	"maypanic": true, "guarantee": true, "guards": true, "ghostparam": true, "inst": true, "onreturn": true}
 
 type logicalLine struct {
 	kw   string
@@ -423,6 +433,31 @@ func (cs *Contracts) loadFile(path, pkgPath string) error {
 			}
 		case "arith":
 			curFunc.Arith = strings.TrimSpace(l.rest)
+		case "onreturn":
+			if curFunc == nil {
+				return fmt.Errorf("%s:%d: onreturn outside func", path, l.line)
+			}
+			i := strings.Index(l.rest, ":=")
+			if i < 0 {
+				return fmt.Errorf("%s:%d: onreturn [cond ==>] ghost := expr", path, l.line)
+			}
+			lhs, rhs := strings.TrimSpace(l.rest[:i]), l.rest[i+2:]
+			gs := &GhostSet{Src: strings.Join(strings.Fields(l.rest), " ")}
+			if j := strings.LastIndex(lhs, "==>"); j >= 0 {
+				ce, err := parseSpec(lhs[:j])
+				if err != nil {
+					return fmt.Errorf("%s:%d: %v", path, l.line, err)
+				}
+				gs.Cond = ce
+				lhs = strings.TrimSpace(lhs[j+3:])
+			}
+			gs.Var = lhs
+			ve, err := parseSpec(rhs)
+			if err != nil {
+				return fmt.Errorf("%s:%d: %v", path, l.line, err)
+			}
+			gs.Val = ve
+			curFunc.OnReturn = append(curFunc.OnReturn, gs)
 		case "inst":
 			// inst callee.ghost expr, expr
 			f := strings.SplitN(strings.TrimSpace(l.rest), " ", 2)
